@@ -390,4 +390,54 @@ ExportChain == (NavTerminal /\ NavDir # "none") =>
 InvTiles == (NavTerminal /\ NavDir = "next" /\ Finite) => T_Tiles(par, Chain, TRUE)
 InvBack  == (NavTerminal /\ NavDir = "prev" /\ Finite) => T_Back(par, Chain, TRUE)
 
+---------------------------------------------------------------------------
+(* Batch lists: next-batches / previous-batches (sequence_variables.next_batches /          *)
+(* previous_batches).  They are computed from the step variables the tag left in the        *)
+(* variables frame: next-batches where next-sequence is true (last displayed element),      *)
+(* previous-batches where previous-sequence is true (first displayed element); each entry   *)
+(* is one call of opt with the effective size, exactly the look-ahead of renderwb repeated. *)
+(* Both loops make progress only for overlap < size (as the navigation).                    *)
+
+RECURSIVE NextBatchesFrom(_, _, _)
+NextBatchesFrom(p, e, z) ==
+    IF e >= p.L THEN <<>>
+    ELSE LET o == Opt(p.L, p.L, e + 1 - p.overlap, 0, z, p.orphan) IN
+         IF o.e <= e THEN <<<<o.s, o.e>>>>                   \* no progress: the real loop would not end (not explored)
+         ELSE <<<<o.s, o.e>>>> \o NextBatchesFrom(p, o.e, z)
+
+RECURSIVE PrevBatchesFrom(_, _, _)
+PrevBatchesFrom(p, s, z) ==
+    IF s <= 1 THEN <<>>
+    ELSE LET o == Opt(p.L, p.L, 0, s - 1 + p.overlap, z, p.orphan) IN
+         IF o.s >= s THEN <<<<o.s, o.e>>>>
+         ELSE PrevBatchesFrom(p, o.s, z) \o <<<<o.s, o.e>>>>
+
+NextList == IF win.e < par.L THEN NextBatchesFrom(par, win.e, win.z) ELSE <<>>
+PrevList == IF win.s > 1 THEN PrevBatchesFrom(par, win.s, win.z) ELSE <<>>
+
+\* the clauses, over a window <<s, e>> and a recorded or computed list of <<s, e>> pairs
+L_Next(p, w, nb) ==
+    /\ (nb = <<>>) <=> (w[2] >= p.L)
+    /\ nb # <<>> =>
+          /\ nb[1][1] = Max(1, w[2] + 1 - p.overlap)
+          /\ \A i \in 1..Len(nb) : 1 <= nb[i][1] /\ nb[i][1] <= nb[i][2] /\ nb[i][2] <= p.L
+          /\ \A i \in 1..Len(nb) - 1 : nb[i + 1][1] = nb[i][2] + 1 - p.overlap /\ nb[i + 1][2] > nb[i][2]
+          /\ nb[Len(nb)][2] = p.L
+L_Prev(p, w, pb) ==
+    /\ (pb = <<>>) <=> (w[1] <= 1)
+    /\ pb # <<>> =>
+          /\ pb[Len(pb)][2] = Min(p.L, w[1] - 1 + p.overlap)
+          /\ \A i \in 1..Len(pb) : 1 <= pb[i][1] /\ pb[i][1] <= pb[i][2] /\ pb[i][2] <= p.L
+          /\ \A i \in 1..Len(pb) - 1 : pb[i][2] = pb[i + 1][1] - 1 + p.overlap /\ pb[i][1] < pb[i + 1][1]
+          /\ pb[1][1] = 1
+
+ListsApply == pc = "done" /\ ~empty /\ ~Crashed /\ rows # <<>> /\ Finite /\ NavDir = "none" /\ par.overlap < win.z
+InvNextList == ListsApply => L_Next(par, <<win.s, win.e>>, NextList)
+InvPrevList == ListsApply => L_Prev(par, <<win.s, win.e>>, PrevList)
+\* the first next batch / the last previous batch are the neighbours the tag announced
+InvListsAgree == ListsApply =>
+    /\ NextList # <<>> => (ninfo.f = 1 /\ NextList[1] = <<ninfo.s, ninfo.e>>)
+    /\ PrevList # <<>> => (pinfo.f = 1 /\ PrevList[Len(PrevList)] = <<pinfo.s, pinfo.e>>)
+ExportLists == ListsApply => PrintT(ToJson(<<ParT(par), <<win.s, win.e>>, NextList, PrevList>>))
+
 =============================================================================
